@@ -26,6 +26,13 @@ publickey request can be dictated PER CALL ("r"), so it may change between query
 (FAILED / PARTIAL / SUCCESSFUL x FAILED / PARTIAL / SUCCESSFUL are enumerated).
 Every request step names the session's user or (generated) one of the other users.
 
+Callback verdicts: every check_auth_* result is generated from FAILED / PARTIAL / SUCCESSFUL AND (about one draw in 6-8)
+from values OUTSIDE the three documented constants - what a callback returns that falls off its end or is sloppy:
+None, 3, -1, "0", "", "success", (0,), 0.5 (nothing that compares equal to a constant: no 0 / False / True / 2.0).
+Such a verdict is not "the application's check returned success": a grant on it is a violation
+(bucket <method>:callback-result-outside-documented-constants-treated-as-success). Every method x every such value is
+also enumerated in each run (focused_cases).
+
 Oracle, after every step: "granted" (USERAUTH_SUCCESS among the replies, or any of
 Transport.is_authenticated(), AuthHandler.authenticated, Transport.authenticated true) implies
  (1) the application callback responsible for this (user, method) was invoked during this step
@@ -50,7 +57,9 @@ LEVEL = "exploration"
 THOROUGH_WORKERS = 16
 RULE = (
     "hypothesis-generated request programs (1..12 steps, arbitrary order) against a live server-mode Transport with a "
-    "generated callback policy (each check_auth_* -> FAILED/PARTIAL/SUCCESSFUL, per password, per key, per interactive round); "
+    "generated callback policy (each check_auth_* -> FAILED/PARTIAL/SUCCESSFUL or, one draw in 6-8, a value outside the documented "
+    "constants: None, 3, -1, '0', '', 'success', (0,), 0.5 - per password, per key, per call, per interactive round; every method x every "
+    "such value is also enumerated; a grant on such a verdict is a violation); "
     "programs are built from single requests and from whole keyboard-interactive exchanges (request + 0..3 INFO_RESPONSE rounds, the "
     "application's answer generated per round: further InteractiveQuery / FAILED / PARTIAL / SUCCESSFUL) with 0..2 other steps of any "
     "kind interleaved before each round; every request names the session's user or a generated other user (4 names); "
@@ -66,6 +75,16 @@ RULE = (
 )
 
 RES = {"F": peers.AUTH_FAILED, "P": peers.AUTH_PARTIALLY_SUCCESSFUL, "S": peers.AUTH_SUCCESSFUL}
+# Verdicts OUTSIDE the three documented constants (a callback falling off its end returns None; a sloppy one returns
+# some other int / a string / a tuple / a float). None of them compares equal to a documented constant (so no 0 / False /
+# 0.0 = AUTH_SUCCESSFUL, no True = AUTH_PARTIALLY_SUCCESSFUL, no 2.0): the application's check did NOT return success.
+ODD = {"X:None": None, "X:3": 3, "X:-1": -1, "X:'0'": "0", "X:''": "", "X:'success'": "success", "X:(0,)": (0,), "X:0.5": 0.5}
+ODDS = sorted(ODD)
+RES.update(ODD)
+
+
+def is_odd(verdict):
+    return verdict in ODD
 PK_VARIANTS = [
     "probe",
     "valid",
@@ -110,24 +129,32 @@ def algo_alternatives(key, algo):
 
 # ----------------------------------------------------------------------------- generator
 
-res = st.sampled_from(["F", "P", "S", "S"])
+odd = st.sampled_from(ODDS)
+
+
+def _or_odd(base, n):
+    """`base`, but one draw in n is a verdict outside the documented constants."""
+    return st.integers(0, n - 1).flatmap(lambda k: odd if k == 0 else base)
+
+
+res = _or_odd(st.sampled_from(["F", "P", "S", "S"]), 6)
 users = st.sampled_from(["alice", "", "böb", "root"])
 
 
 @st.composite
 def policies(draw):
     return {
-        "none": draw(st.sampled_from(["F", "F", "F", "P", "S"])),
-        "password": {"good": draw(res), "bad": draw(st.sampled_from(["F", "F", "P", "S"]))},
+        "none": draw(_or_odd(st.sampled_from(["F", "F", "F", "P", "S"]), 6)),
+        "password": {"good": draw(res), "bad": draw(_or_odd(st.sampled_from(["F", "F", "P", "S"]), 6))},
         "pk": dict([("default", draw(res))] + [(k, draw(res)) for k in draw(st.lists(st.sampled_from(PLAINKEYS), max_size=3, unique=True))]),
-        "kbd": draw(st.sampled_from(["F", "P", "S", "query", "query"])),
-        "rounds": draw(st.lists(st.sampled_from(["F", "P", "S", "query"]), max_size=3)),
+        "kbd": draw(_or_odd(st.sampled_from(["F", "P", "S", "query", "query"]), 7)),
+        "rounds": draw(st.lists(_or_odd(st.sampled_from(["F", "P", "S", "query"]), 7), max_size=3)),
         "gssmic": draw(res),
         "keyex": draw(res),
     }
 
 
-pk_r = st.sampled_from([None, None, None, "F", "P", "S"])
+pk_r = _or_odd(st.sampled_from([None, None, None, "F", "P", "S"]), 8)
 
 
 def _pk(key, algo, v, alt=None, r=None):
@@ -182,13 +209,13 @@ def kbd_exchange(draw, min_rounds=0):
     rounds follow), then per round 0-2 interleaved steps of any kind (each naming, with probability
     ~1/3, a generated user instead of the session's) and the INFO_RESPONSE with its generated result."""
     nrounds = draw(st.integers(min_rounds, 3))
-    first = "query" if nrounds else draw(st.sampled_from(["F", "P", "S", "query"]))
+    first = "query" if nrounds else draw(_or_odd(st.sampled_from(["F", "P", "S", "query"]), 6))
     out = [{"k": "kbd", "sub": draw(st.sampled_from(["", "pam"])), "r": first}]
     for j in range(nrounds):
         for stp in draw(st.lists(step, max_size=2)):
             u = draw(st.sampled_from([None] * 4 + USERS))
             out.append(dict(stp, u=u) if u is not None and stp["k"] != "resp" else stp)
-        r = "query" if j < nrounds - 1 else draw(st.sampled_from(["F", "P", "S", "S", "query"]))
+        r = "query" if j < nrounds - 1 else draw(_or_odd(st.sampled_from(["F", "P", "S", "S", "query"]), 6))
         out.append({"k": "resp", "n": draw(st.integers(0, 2)), "r": r})
     return out
 
@@ -200,8 +227,8 @@ def pk_twostep(draw):
     answer is generated PER CALL (absent = the case-wide policy), so it may differ between query and signed request."""
     key = draw(st.sampled_from(KEYNAMES))
     algo = draw(st.sampled_from(A.key_algos(key)))
-    r1 = draw(st.sampled_from(["P", "S", "P", "S", "F", None]))
-    r2 = draw(st.sampled_from(["F", "P", "S", "P", "S", None]))
+    r1 = draw(_or_odd(st.sampled_from(["P", "S", "P", "S", "F", None]), 7))
+    r2 = draw(_or_odd(st.sampled_from(["F", "P", "S", "P", "S", None]), 7))
     v = draw(st.sampled_from(["valid"] * 6 + [x for x in PK_VARIANTS if x != "probe"]))
     between = draw(st.lists(step, max_size=1)) if draw(st.integers(0, 3)) == 0 else []
     return [_pk(key, algo, "probe", r=r1)] + between + [_pk(key, algo, v, draw(st.integers(0, 9)), r2)]
@@ -465,6 +492,11 @@ def execute(ctx, case, classes):
                 if verdict != "S" or not proof_ok or probe:
                     out["nontrivial"] = True
                 classes.add("step:" + k)
+                if is_odd(verdict) and invoked:
+                    # the responsible callback really answered this message with a value outside the documented constants
+                    classes.add("callback-verdict-outside-documented-constants")
+                    classes.add("undocumented-verdict:%s:%s" % (cb, verdict))
+                    classes.add("undocumented-verdict-answered-with:" + ",".join(A.reply_kinds(replies)[:2]))
                 # ---- bookkeeping of the keyboard-interactive exchange (evidence classes only)
                 asked = [c[1][0] for c in s.calls_since(0) if c[0] == "check_auth_interactive"]
                 got_query = k in ("kbd", "resp") and 60 in [t for t, _ in replies]
@@ -498,6 +530,9 @@ def execute(ctx, case, classes):
                         out["violation"] = ("probe-granted", "publickey:probe", detail)
                     elif not invoked:
                         out["violation"] = ("granted-without-approval", "%s:callback-not-invoked" % method, detail)
+                    elif is_odd(verdict):
+                        # fail-open mapping of the verdict: anything that is not one of the refusing constants counts as success
+                        out["violation"] = ("granted-without-approval", "%s:callback-result-outside-documented-constants-treated-as-success" % method, detail)
                     elif verdict != "S":
                         out["violation"] = ("granted-without-approval", "%s:callback-result-ignored" % method, detail)
                     elif not proof_ok:
@@ -634,6 +669,26 @@ def focused_cases(quick):
         for first in ("query", "P", "F"):
             out.append({"user": "alice", "gss": True, "policy": pol(kbd=first, rounds=["query", verdict]), "steps": [{"k": "kbd", "sub": ""}, {"k": "resp", "n": 1}, {"k": "resp", "n": 1}]})
             out.append({"user": "alice", "gss": True, "policy": pol(kbd=first, rounds=[verdict]), "steps": [{"k": "resp", "n": 0}]})
+    # every method whose callback answers with a verdict OUTSIDE the documented constants (each of the 8 values; the proof,
+    # where the method has one, is valid): none / unknown method, password, publickey (signed at once, and query + signed
+    # request), keyboard-interactive (answered at once / after a query round), gssapi-with-mic, gssapi-keyex
+    # (quick: every value x every method, one shape each; thorough: also the per-call forms and both GSS token shapes)
+    for x in ODDS:
+        out.append({"user": "alice", "gss": True, "policy": pol(none=x), "steps": [{"k": "none"}, {"k": "other", "method": "hostbased"}]})
+        out.append({"user": "alice", "gss": True, "policy": pol(password={"good": x, "bad": x}), "steps": [{"k": "password", "pw": "bad", "change": False}, {"k": "password", "pw": "good", "change": False}]})
+        out.append({"user": "alice", "gss": False, "policy": pol(pk={"default": x}), "steps": [_pk("ed25519", "ssh-ed25519", "valid"), _pk("rsa2048", "rsa-sha2-256", "probe"), _pk("rsa2048", "rsa-sha2-256", "valid")]})
+        out.append({"user": "alice", "gss": True, "policy": pol(kbd=x), "steps": [{"k": "kbd", "sub": ""}]})
+        out.append({"user": "alice", "gss": True, "policy": pol(kbd="query", rounds=[x]), "steps": [{"k": "kbd", "sub": ""}, {"k": "resp", "n": 1}]})
+        out.append({"user": "alice", "gss": True, "policy": pol(gssmic=x), "steps": [{"k": "gssmic", "mech_ok": True, "oids": 1, "tokens": [b"srv-token"], "mic_ok": True, "abort": None}]})
+        out.append({"user": "alice", "gss": True, "policy": pol(keyex=x), "steps": [{"k": "keyex", "ctx": True, "mic_ok": True}]})
+        if not quick:
+            out.append({"user": "alice", "gss": False, "policy": pol(none=x), "steps": [{"k": "keyex", "ctx": True, "mic_ok": True}]})
+            out.append({"user": "alice", "gss": True, "policy": pol(gssmic=x), "steps": [{"k": "gssmic", "mech_ok": True, "oids": 1, "tokens": [None], "mic_ok": True, "abort": None}]})
+            out.append({"user": "alice", "gss": True, "policy": pol(kbd="query", rounds=["query", x]), "steps": [{"k": "kbd", "sub": ""}, {"k": "resp", "n": 1}, {"k": "resp", "n": 1}]})
+            for r1 in ("F", "P", "S", x):
+                for r2 in ("F", "P", "S", x):
+                    if x in (r1, r2):
+                        out.append({"user": "alice", "gss": False, "policy": pol(pk={"default": "F"}), "steps": [_pk("ed25519", "ssh-ed25519", "probe", r=r1), _pk("ed25519", "ssh-ed25519", "valid", r=r2)]})
     # keyboard-interactive exchanges (1 and 2 rounds) with every kind of request interleaved before the
     # final round, naming the same user or another one, against every final verdict
     between = [
